@@ -161,7 +161,7 @@ func atomsOfCond(p *core.Prog, v ssa.Value, depth int, out map[string]bool) {
 			return
 		}
 		// a group predicate of the same type (IsSameGroup / Equal method): every equality it tests on a path returning true
-		if callee := x.Call.StaticCallee(); callee != nil && callee.Blocks != nil && core.InRepo(core.FnPkgPath(callee)) && isBool(x.Type()) {
+		if callee := core.StaticCallee(x); callee != nil && callee.Blocks != nil && core.InRepo(core.FnPkgPath(callee)) && isBool(x.Type()) {
 			for _, b := range callee.Blocks {
 				if iff := core.IfOf(b); iff != nil {
 					atomsOfCond(p, iff.Cond, depth+1, out)
@@ -204,6 +204,27 @@ func sigOfRegion(p *core.Prog, fn *ssa.Function, idParam ssa.Value, inRegion fun
 						if core.StripConv(a) == idParam && k < len(h.Params) {
 							sub = sigOfRegion(p, h, h.Params[k], nil, decoder).kind
 						}
+					}
+					if sub == "group" && inRegion == nil && len(core.Returns(fn)) == 1 && len(vals) == 1 {
+						// plain delegation (`return s.encode(parentID, key, value, s.IsSameGroup)`): the helper's signature, read
+						// with its parameters standing for this call's arguments (the group predicate may be one of them)
+						for k, a := range cl.Call.Args {
+							if k < len(h.Params) {
+								core.BindParam(h.Params[k], a)
+							}
+						}
+						var out codecSig
+						for k, a := range cl.Call.Args {
+							if core.StripConv(a) == idParam && k < len(h.Params) {
+								out = sigOfRegion(p, h, h.Params[k], nil, decoder)
+							}
+						}
+						for k := range cl.Call.Args {
+							if k < len(h.Params) {
+								core.UnbindParam(h.Params[k])
+							}
+						}
+						return out
 					}
 					switch sub {
 					case "raw":
